@@ -1,0 +1,106 @@
+// SPDX-FileCopyrightText: 2026 The Pion community <https://pion.ly>
+// SPDX-License-Identifier: MIT
+
+//go:build verif
+
+package rtpfb
+
+import (
+	"time"
+
+	"github.com/pion/interceptor"
+	"github.com/pion/rtcp"
+)
+
+// VerifAck mirrors the unexported acknowledgement for the external verification harness.
+type VerifAck struct {
+	SequenceNumber uint16
+	Arrived        bool
+	Arrival        time.Time
+	ECN            rtcp.ECN
+}
+
+func verifAcks(in []acknowledgement) []VerifAck {
+	out := make([]VerifAck, 0, len(in))
+	for _, a := range in {
+		out = append(out, VerifAck{a.sequenceNumber, a.arrived, a.arrival, a.ecn})
+	}
+
+	return out
+}
+
+// VerifConvertTWCC exposes convertTWCC.
+func VerifConvertTWCC(feedback *rtcp.TransportLayerCC) []VerifAck {
+	return verifAcks(convertTWCC(feedback))
+}
+
+// VerifConvertCCFB exposes convertCCFB.
+func VerifConvertCCFB(ts time.Time, feedback *rtcp.CCFeedbackReport) (time.Duration, map[uint32][]VerifAck) {
+	d, m := convertCCFB(ts, feedback)
+	out := map[uint32][]VerifAck{}
+	for k, v := range m {
+		out[k] = verifAcks(v)
+	}
+
+	return d, out
+}
+
+// VerifTimeFactory exposes the timeFactory option (injects the clock).
+func VerifTimeFactory(f func() time.Time) Option { return timeFactory(f) }
+
+// VerifProcessFeedback exposes Interceptor.processFeedback (the body of the RTCP reader
+// after parsing).
+func VerifProcessFeedback(i interceptor.Interceptor, ts time.Time, pkts []rtcp.Packet) (time.Duration, []PacketReport) {
+	in, ok := i.(*Interceptor)
+	if !ok {
+		return 0, nil
+	}
+
+	return in.processFeedback(ts, pkts)
+}
+
+// VerifHistory is a handle on the history of an Interceptor.
+type VerifHistory struct{ h *history }
+
+// VerifHistoryOf returns the history of an Interceptor created by the default factory.
+func VerifHistoryOf(i interceptor.Interceptor) *VerifHistory {
+	in, ok := i.(*Interceptor)
+	if !ok {
+		return nil
+	}
+	h, ok := in.history.(*history)
+	if !ok {
+		return nil
+	}
+
+	return &VerifHistory{h: h}
+}
+
+// VerifNewHistory returns a handle on a fresh history.
+func VerifNewHistory() *VerifHistory { return &VerifHistory{h: newHistory()} }
+
+// AddOutgoing exposes history.addOutgoing.
+func (v *VerifHistory) AddOutgoing(ssrc uint32, rtpSeq uint16, isTWCC bool, twccSeq uint16, size int, departure time.Time) {
+	v.h.addOutgoing(ssrc, rtpSeq, isTWCC, twccSeq, size, departure)
+}
+
+// OnTWCCFeedback exposes history.onTWCCFeedback.
+func (v *VerifHistory) OnTWCCFeedback(ts time.Time, ack VerifAck) (time.Duration, bool) {
+	return v.h.onTWCCFeedback(ts, acknowledgement{ack.SequenceNumber, ack.Arrived, ack.Arrival, ack.ECN})
+}
+
+// OnCCFBFeedback exposes history.onCCFBFeedback.
+func (v *VerifHistory) OnCCFBFeedback(ts time.Time, ssrc uint32, ack VerifAck) (time.Duration, bool) {
+	return v.h.onCCFBFeedback(ts, ssrc, acknowledgement{ack.SequenceNumber, ack.Arrived, ack.Arrival, ack.ECN})
+}
+
+// BuildReport exposes history.buildReport.
+func (v *VerifHistory) BuildReport() []PacketReport { return v.h.buildReport() }
+
+// Sizes returns the number of entries of the three maps of the history.
+func (v *VerifHistory) Sizes() (packets, twcc, ssrcSeq int) {
+	v.h.lock.RLock()
+	defer v.h.lock.RUnlock()
+
+	return len(v.h.packets), len(v.h.twccToCounter), len(v.h.ssrcSeqNrToCounter)
+}
